@@ -67,7 +67,7 @@ func main() {
 		h.model = m
 		defer m.Close()
 	}
-	run.SetRule("served: every multiset of ≤3 (thorough ≤4) edges over the timestamps {t, t+1ns, t+1s(, t+2s)} with unique ids in seeded order × atOrAfterTime,beforeTime ∈ {absent} ∪ 4 instants × after,before ∈ {absent} ∪ cursors(D) ∪ 3 foreign cursors (equal timestamp/other id, outside the window) × first|last ∈ 0..|D|+1, getter tie-break ∈ {id, reverse-id, seeded} and delivery ∈ {sync, promise, mixed} seeded; walks for every page size × time window; TimeBasedRangeQueries directly over cursors × windows × limits; random larger data sets. distinct = distinct canonical case; non-trivial = the data set has a repeated timestamp and TimeRef's page is a non-empty proper part of it (served), the walk needs more than one page, a cursor is given (queries)")
+	run.SetRule("served: every multiset of ≤3 (thorough ≤4) edges over the timestamps {t, t+1ns, t+1s(, t+2s)} with unique ids in seeded order × atOrAfterTime,beforeTime ∈ {absent} ∪ 4 instants × after,before ∈ {absent} ∪ cursors(D) ∪ 4 foreign cursors (an edge's instant with another id, before everything, an instant no edge carries — inside and outside the window) × first|last ∈ 0..|D|+1, getter tie-break ∈ {id, reverse-id, seeded}, delivery ∈ {sync, promise, mixed} and empty-range representation ∈ {empty slice, typed nil, untyped nil} seeded; walks for every page size × time window; TimeBasedRangeQueries directly over cursors × windows × limits; random larger data sets. distinct = distinct canonical case; non-trivial = the data set has a repeated timestamp and TimeRef's page is a non-empty proper part of it (served), the walk needs more than one page, a cursor is given (queries)")
 
 	if run.Replay != "" {
 		var c Case
@@ -153,7 +153,10 @@ func main() {
 			for _, e := range D {
 				curs = append(curs, &CurArg{Kind: "emitted", T: e.T, Id: e.Id, S: emit(e)})
 			}
-			for _, e := range []TEdge{{times[0], ""}, {times[1], "zz"}, {lo, "m"}} {
+			// foreign cursors: an edge's instant with a smaller / larger id, before everything, and an
+			// instant that no edge of any data set carries (a stale or client-made cursor): its
+			// exact-timestamp query is answered with an empty range
+			for _, e := range []TEdge{{times[0], ""}, {times[1], "zz"}, {lo, "m"}, {times[1] + 5e8, "g"}} {
 				curs = append(curs, &CurArg{Kind: "emitted", T: e.T, Id: e.Id, S: emit(e)})
 			}
 			for _, t1 := range atOrAfters {
@@ -172,7 +175,7 @@ func main() {
 									if R.Bool() {
 										tie = "id"
 									}
-									h.add(Case{Kind: "served", D: D, Tie: tie, Async: hx.Pick(R, asyncs), Seed: R.Uint64() >> 1, Req: &r})
+									h.add(Case{Kind: "served", D: D, Tie: tie, Async: hx.Pick(R, asyncs), Empty: hx.Pick(R, emptyNames), Seed: R.Uint64() >> 1, Req: &r})
 								}
 							}
 						}
@@ -184,7 +187,7 @@ func main() {
 							if R.Bool() {
 								tie = "id"
 							}
-							h.check(Case{Kind: "walk", D: D, Tie: tie, Async: hx.Pick(R, asyncs), Seed: R.Uint64() >> 1, Walk: &TWalk{Forward: fwd, N: n, AtOrAfter: t1, BeforeT: t2}})
+							h.check(Case{Kind: "walk", D: D, Tie: tie, Async: hx.Pick(R, asyncs), Empty: hx.Pick(R, emptyNames), Seed: R.Uint64() >> 1, Walk: &TWalk{Forward: fwd, N: n, AtOrAfter: t1, BeforeT: t2}})
 						}
 					}
 				}
@@ -211,12 +214,12 @@ func main() {
 			} else {
 				r.Last, r.Before = ip(2), &CurArg{Kind: "raw", S: s}
 			}
-			h.add(Case{Kind: "served", D: D3, Tie: "id", Async: hx.Pick(R, asyncs), Seed: R.Uint64() >> 1, Req: &r})
+			h.add(Case{Kind: "served", D: D3, Tie: "id", Async: hx.Pick(R, asyncs), Empty: hx.Pick(R, emptyNames), Seed: R.Uint64() >> 1, Req: &r})
 		}
 	}
 	for _, fl := range [][2]*int{{nil, nil}, {ip(-1), nil}, {nil, ip(-2)}, {ip(1), ip(1)}, {ip(0), ip(0)}} {
 		r := TReq{First: fl[0], Last: fl[1], SelPI: true, AtOrAfter: i64(times[0])}
-		h.add(Case{Kind: "served", D: D3, Tie: "id", Async: hx.Pick(R, asyncs), Seed: R.Uint64() >> 1, Req: &r})
+		h.add(Case{Kind: "served", D: D3, Tie: "id", Async: hx.Pick(R, asyncs), Empty: hx.Pick(R, emptyNames), Seed: R.Uint64() >> 1, Req: &r})
 	}
 
 	// ---- random larger data sets: many edges per timestamp, requests and walks
@@ -256,7 +259,7 @@ func main() {
 		}
 		async := hx.Pick(r, asyncs)
 		if r.Chance(1, 4) {
-			h.check(Case{Kind: "walk", D: D, Tie: tie, Async: async, Seed: r.Uint64() >> 1, Walk: &TWalk{Forward: r.Bool(), N: r.Range(1, n/2+1), AtOrAfter: pickT(), BeforeT: pickT()}})
+			h.check(Case{Kind: "walk", D: D, Tie: tie, Async: async, Empty: hx.Pick(r, emptyNames), Seed: r.Uint64() >> 1, Walk: &TWalk{Forward: r.Bool(), N: r.Range(1, n/2+1), AtOrAfter: pickT(), BeforeT: pickT()}})
 			continue
 		}
 		pickCur := func() *CurArg {
@@ -280,7 +283,7 @@ func main() {
 		} else {
 			rq.Last = ip(r.Range(0, n+1))
 		}
-		c := Case{Kind: "served", D: D, Tie: tie, Async: async, Seed: r.Uint64() >> 1, Req: &rq}
+		c := Case{Kind: "served", D: D, Tie: tie, Async: async, Empty: hx.Pick(r, emptyNames), Seed: r.Uint64() >> 1, Req: &rq}
 		h.add(c)
 		if i < 3 {
 			run.Sample(c)
